@@ -435,7 +435,7 @@ class GCXS(SparseArray, NDArrayOperatorsMixin):
         """
         if self.ndim == 0:
             return COO(
-                np.array([]),
+                np.empty((0, len(self.data)), dtype=np.intp),
                 self.data,
                 shape=self.shape,
                 fill_value=self.fill_value,
@@ -663,8 +663,9 @@ class GCXS(SparseArray, NDArrayOperatorsMixin):
 
         if self.size != reduce(operator.mul, shape, 1):
             raise ValueError(f"cannot reshape array of size {self.size} into shape {shape}")
-        if len(shape) == 0:
-            return self.tocoo().reshape(shape).asformat("gcxs")
+        if len(shape) == 0 or self.ndim == 0:
+            # 0-d arrays have no axes to compress: go through COO
+            return self.tocoo().reshape(shape).asformat("gcxs", compressed_axes=compressed_axes)
 
         if compressed_axes is None:
             if len(shape) == self.ndim:
